@@ -45,6 +45,17 @@ class _Subst(ast.NodeTransformer):
             return _clone(self.mapping[node.id])
         return node
 
+    def visit_Call(self, node):
+        # f(x, **kw) where kw is the helper's pass-through **parameter: the keywords given at the call site take its place
+        kws = []
+        for k in node.keywords:
+            if k.arg is None and isinstance(k.value, ast.Name) and ("**" + k.value.id) in self.mapping:
+                kws.extend(ast.keyword(arg=x.arg, value=_clone(x.value)) for x in self.mapping["**" + k.value.id].keywords)
+            else:
+                kws.append(k)
+        node.keywords = kws
+        return self.generic_visit(node)
+
 
 def _own_stmt_nodes(fn):
     return list(alpha._own_nodes(fn))
@@ -117,8 +128,17 @@ def _helper_expr(fn):
 def _bind_args(fn, call, is_method):
     """{param: arg expr} or None when the call cannot be matched positionally/by keyword."""
     a = fn.args
-    if a.vararg or a.kwarg or a.kwonlyargs or a.posonlyargs:
+    if a.vararg or a.kwonlyargs or a.posonlyargs:
         return None
+    passthrough = None
+    if a.kwarg:
+        # a **parameter is fine when the helper does nothing with it but hand it on as **kw
+        kw = a.kwarg.arg
+        uses = [x for x in ast.walk(fn) if isinstance(x, ast.Name) and x.id == kw]
+        handed = [k.value for c in ast.walk(fn) if isinstance(c, ast.Call) for k in c.keywords if k.arg is None and isinstance(k.value, ast.Name) and k.value.id == kw]
+        if not uses or len(uses) != len(handed) or any(u not in handed for u in uses):
+            return None
+        passthrough = kw
     names = [x.arg for x in a.args]
     if is_method:
         names = names[1:]
@@ -129,10 +149,16 @@ def _bind_args(fn, call, is_method):
     m = {}
     for n, v in zip(names, call.args):
         m[n] = v
+    extra = []
     for k in call.keywords:
         if k.arg not in names or k.arg in m:
+            if passthrough is not None and k.arg not in names:
+                extra.append(k)
+                continue
             return None
         m[k.arg] = k.value
+    if passthrough is not None:
+        m["**" + passthrough] = ast.Call(func=ast.Name(id="__kw__", ctx=ast.Load()), args=[], keywords=extra)
     defaults = dict(zip(names[len(names) - len(a.defaults):], a.defaults)) if a.defaults else {}
     for n in names:
         if n not in m:
